@@ -242,6 +242,10 @@ def _align(scope, table, mapping):
         ty = t.get_type()
         if ty not in ("function", "class"):
             raise Unsupported("symbol table of type " + str(ty))
+        if t.get_name() == "top":
+            # Lib/symtable.py decides "module scope" by the table's NAME being "top": for a function or class called top its
+            # Symbol.is_global() / is_local() answer as if the names were module-level.  Nothing is claimed for such a program.
+            raise Unsupported("a scope called 'top' (symtable quirk)")
         kids.setdefault((ty, t.get_name(), t.get_lineno()), []).append(t)
     want = {}
     for c in _real_children(scope):
